@@ -64,6 +64,9 @@ def run(ctx, prove=True):
         ctx.count(json.dumps(case, sort_keys=True), nontrivial=sup,
                   sample={"case": case, "vectors": vs, "lint_exit": obs["lint_path_exit"], "fix_exit": obs["fix_path_exit"]} if sup and len(ctx.samples) < 5 else None)
         e_lint, e_fix = expected(case, vs)
+        if case.get("all_suppressed") and (obs["lint_path_exit"] != 0 or obs["lint_stdin_exit"] != 0):
+            ctx.violation("every violation of the file is suppressed by noqa, yet `lint` exits non-zero",
+                          {"case": case, "exit_path": obs["lint_path_exit"], "exit_stdin": obs["lint_stdin_exit"], "vectors": vs})
         for k in ("lint_path_exit", "lint_stdin_exit"):
             if obs[k] != e_lint:
                 ctx.violation("`lint` exit code differs from 'some unsuppressed, non-warning violation'", {"case": case, "entry": k, "exit": obs[k], "expected": e_lint, "vectors": vs})
